@@ -6,6 +6,7 @@ pub mod configs;
 pub mod crash;
 pub mod events;
 pub mod inscriptions;
+pub mod nofail;
 pub mod reorg;
 pub mod runes;
 pub mod runes_batch;
